@@ -370,6 +370,45 @@ fn run_capacity(ctx: &mut Ctx) {
             let _ = run_pool;
             ctx.emit(l.finish(&format!("{},{},{}", live_seq, live_pool, if run.0 { "timeout" } else { "ok" })));
         }
+        // TCP uptime tracker: far more timestamped endpoints than the configured capacity (one SYN each)
+        {
+            let cap = *r.pick(&[1usize, 4, 16]);
+            let flows = 20_000usize;
+            let frames: Vec<Vec<u8>> = (0..flows)
+                .map(|i| {
+                    let mut g = Seg::new((net::v4(0x0b00_0000 + i as u32), 40000 + (i % 1000) as u16), (net::v4(0x0a31_0001), 443), SYN);
+                    g.options = Seg::syn_options(1460, 7, Some(1000 + i as u32));
+                    g.wall_ms = 1_700_000_000_000 + i as u64;
+                    net::eth_bytes(&g)
+                })
+                .collect();
+            let (_, live0) = snapshot();
+            let live_seq;
+            let entries;
+            {
+                let mut tcp: TtlCache<huginn_net_tcp::ConnectionKey, huginn_net_tcp::TcpTimestamp> = TtlCache::new(cap);
+                for f in &frames {
+                    let ip = Ipv4Packet::new(&f[14..]).unwrap();
+                    huginn_net_tcp::uptime::VERIF_CLOCK_MS.store(1_700_000_000_000, std::sync::atomic::Ordering::SeqCst);
+                    let _ = huginn_net_tcp::process_ipv4_packet(&ip, &mut tcp, None);
+                }
+                let (_, l1) = snapshot();
+                live_seq = l1.saturating_sub(live0);
+                entries = tcp.iter().count();
+            }
+            // the pool path with fewer frames: its bounded queue and the harness's own bookkeeping are
+            // allocated per frame and would otherwise dominate the measurement
+            let frames: Vec<Vec<u8>> = frames.into_iter().take(4000).collect();
+            let nframes = frames.len();
+            let (_, live0) = snapshot();
+            crate::registry::c10::DISCARD_RESULTS.store(true, std::sync::atomic::Ordering::SeqCst);
+            let run = run_pool_keep(Kind::Tcp, 1, nframes + 64, 8, 2, cap, frames.clone(), &mut r);
+            crate::registry::c10::DISCARD_RESULTS.store(false, std::sync::atomic::Ordering::SeqCst);
+            let live_pool = run.1.saturating_sub(live0);
+            let mut l = Line::op("C11.cap");
+            l.tok("tcp").usize(cap).usize(flows).usize(256);
+            ctx.emit(l.finish(&format!("{},{},{},{}", live_seq, live_pool, if run.0 { "timeout" } else { "ok" }, entries)));
+        }
     }
 }
 
